@@ -7145,7 +7145,11 @@ func setProtoTreasureToModel(treasure *hydraidepbgo.Treasure, field reflect.Valu
 				field.Set(reflect.ValueOf(decoded).Elem())
 			}
 
-		case reflect.Map, reflect.Ptr:
+		case reflect.Map, reflect.Ptr, reflect.Struct:
+			if field.Kind() == reflect.Struct && field.Type() == reflect.TypeOf(time.Time{}) {
+				// time.Time travels as Int64Val, never as bytes
+				return nil
+			}
 			data := treasure.GetBytesVal()
 			decoded := reflect.New(field.Type()).Interface()
 
@@ -7449,6 +7453,28 @@ func convertFieldToKvPair(value reflect.Value, kvPair *hydraidepbgo.KeyValuePair
 				intVal := timeValue.UTC().Unix()
 				kvPair.Int64Val = &intVal
 			}
+			break
+		}
+
+		// Any other struct value is encoded exactly like a pointer to it (the
+		// documentation lists "struct or pointer to struct"); it used to be
+		// dropped silently, so the Treasure was stored without a value.
+		if encoding == EncodingMsgPack {
+			encoded, encErr := msgpack.Marshal(value.Interface())
+			if encErr != nil {
+				err = fmt.Errorf("could not msgpack-encode struct value: %w", encErr)
+				break
+			}
+			kvPair.BytesVal = wrapMsgpack(encoded)
+		} else {
+			registerGobTypeIfNeeded(value.Interface())
+			var buf bytes.Buffer
+			encoder := gob.NewEncoder(&buf)
+			if encErr := encoder.Encode(value.Interface()); encErr != nil {
+				err = fmt.Errorf("could not GOB-encode struct value: %w", encErr)
+				break
+			}
+			kvPair.BytesVal = buf.Bytes()
 		}
 
 	// ❌ Any other unsupported type is rejected explicitly
